@@ -382,6 +382,11 @@ def check_symbolic(run, B, tag, ast, n, rng, expr=None, deep=True):
               {**desc, "what": "sympy's expansion vs the model's own expansion"})
         if not deep:
             return h
+        if not h.terms and not h.constant:
+            # the form expands to the zero operator: apply_gates returns the python int 0 (`total = 0`), so h @ rho is not an
+            # array and expectation(rho) raises; excluded by the hypothesis of apply_ok (terms <> [] or constant <> 0)
+            run.notes.setdefault("zero_operator_forms", []).append(desc["form"])
+            return h
         psi = rand_state(rng, n)
         rho = rand_dm(rng, n)
         hpsi = to_arr(h @ psi, psi.shape)
